@@ -33,6 +33,7 @@ const (
 	pObj                  // heap object (ref) of type Root
 	pElem                 // element of a backing array
 	pGlobal               // package-level variable
+	pOpaque               // field of an opaque (library) struct: reads/writes go through the abstract state of Base
 )
 
 // PtrV is a pointer with statically known shape.
@@ -44,6 +45,8 @@ type PtrV struct {
 	Root types.Type   // type of the root object / element / cell
 	Path []int        // field path from the root
 	Glob *ssa.Global  // pGlobal
+	Base *PtrV        // pOpaque: the opaque struct
+	Fld  string       // pOpaque: field name
 }
 
 type TupleV []Value
